@@ -18,4 +18,9 @@ FLOORS = {
     "C16": {"entries": 1, "obligations": 80},
     "C17": {"entries": 5, "obligations": 40},
     "C18": {"entries": 4, "obligations": 200},
+    "C09": {"entries": 3, "obligations": 60},
+    "C10": {"entries": 15, "obligations": 200},
+    "C11": {"entries": 25, "obligations": 200},
+    "C13": {"entries": 2, "obligations": 60},
+    "C19": {"entries": 15, "obligations": 80},
 }
